@@ -246,6 +246,9 @@ def _healthy_job(args):
         sc["machines"]["bad"] = {"definition": payload}
         sc["script"] = [{"op": "start", "machine": "bad", "name": "b1", "input": {"x": 1}}, {"op": "start", "machine": "h", "name": "h1", "input": {"k": 1}},
                         {"op": "start", "machine": "h", "name": "h2", "input": {"k": 2}, "after_quiet": True}]
+    elif kind == "event-bytes":
+        sc["script"] = [{"op": "raw", "body_hex": payload}, {"op": "start", "machine": "h", "name": "h1", "input": {"k": 1}},
+                        {"op": "start", "machine": "h", "name": "h2", "input": {"k": 2}, "after_quiet": True}]
     else:
         sc["script"] = [{"op": "raw", "body": payload}, {"op": "start", "machine": "h", "name": "h1", "input": {"k": 1}},
                         {"op": "start", "machine": "h", "name": "h2", "input": {"k": 2}, "after_quiet": True}]
@@ -286,6 +289,8 @@ def run(tier, seed):
         hjobs.append(("event", json.dumps(v)))
         hjobs.append(("event", json.dumps({"data": v, "context": {"StateMachine": {"Id": "arn:aws:states:local:0123456789:stateMachine:h"}, "State": v}})))
         hjobs.append(("event", json.dumps({"data": {}, "context": {"StateMachine": {"Id": "arn:aws:states:local:0123456789:stateMachine:h"}, "State": {"Name": "HT"}, "Execution": v}})))
+    for raw in ('{"data": "caf\u00e9", "context": {}}'.encode("latin-1"), '{"data": {}, "context": {}}'.encode("utf-16"), b"\x1f\x8b\x08\x00\xfe\xff\x80\x81", b"\xff", b"\xc3"):
+        hjobs.append(("event-bytes", raw.hex()))
     ctx = multiprocessing.get_context("fork")
     with ctx.Pool(common.JOBS) as pool:
         outs = pool.map(_mut_job, jobs, chunksize=1)
